@@ -37,7 +37,9 @@ RAW_INLINE = ['<span class="a">', '</span>', '<br/>', '<!-- c -->', '<b>', '<a h
 ESCAPABLE = list('*_`[]()#<>\\!&"\'-+.{}=$%^,/:;?@')      # no '|' (table cells re-escape pipes), no '~' (finding F42)
 TITLE_ESCAPABLE = ESCAPABLE + ['~']
 ENTITIES = [('&amp;', '&'), ('&lt;', '<'), ('&gt;', '>'), ('&quot;', '"'), ('&copy;', '©'), ('&#35;', '#'), ('&#x22;', '"'),
-            ('&ouml;', 'ö'), ('&#42;', '*'), ('&nbsp;', '\u00a0')]
+            ('&ouml;', 'ö'), ('&#42;', '*'), ('&nbsp;', '\u00a0'),
+            # numeric references at the edges: the C1 range stands for itself, NUL / surrogates / beyond Unicode for U+FFFD
+            ('&#128;', '\x80'), ('&#x96;', '\x96'), ('&#0;', '\ufffd'), ('&#xD800;', '\ufffd'), ('&#1114112;', '\ufffd'), ('&#X1F600;', '\U0001F600')]
 INFOS = ['', '', 'py', 'c++ extra', 'sh', 'x-y', 'a&amp;b', 'lang\\*']
 CODE_LINES = ['x = 1', '  indented', '', '*not em*', '<b>', '> q', '- l', '    four', '# h', 'a & b', '```', '~~~', '    ```', '    ~~~~~~', '1. x', '[a]: b',
               '| a |', '***', 'tail  ', '\\', '&amp;',
